@@ -89,3 +89,93 @@ Proof.
   - apply u_solvable_with_spec. exact Ew.
   - intros r f Hr Hf. eapply all_some_In; [exact El|]. rewrite <- Hf. apply in_map. exact Hr.
 Qed.
+
+(* ---------- C14: which soft requirements must be accepted ---------- *)
+
+(* [G] (containing x) is a consistent selection -- valid WITHOUT any exemption:
+   a soft solvable that its own package excludes or locks out may legitimately
+   be rejected once that package is requested -- closed under first choices, in
+   which every requirement is met only by its first choice: installing x on
+   top of a conflict-free selection yields exactly this *)
+Definition soft_step_ok (u : universe) (P : problem) (G : list N) (x : N) : bool :=
+  let U := table_provider u in
+  memN x G &&
+  validb U P G [] &&
+  supportedb U P G &&
+  forallb (first_choiceb_ok U G) (all_reqs_list U P G).
+
+(* process the soft list on top of a conflict-free hard selection G0; every step
+   must be clear-cut: either the first-ranked closure of x is compatible
+   (accept), or no valid selection extends the current one with x at all
+   (reject).  Returns the accepted solvables with the selection they lead to. *)
+Fixpoint soft_expect (fuel : nat) (u : universe) (P : problem) (G : list N) (softs : list N)
+  : option (list (N * list N)) :=
+  match softs with
+  | [] => Some []
+  | x :: t =>
+    let U := table_provider u in
+    if memN x G then
+      if soft_step_ok u P G x then
+        match soft_expect fuel u P G t with Some r => Some ((x, G) :: r) | None => None end
+      else None
+    else
+      let clear_reject := negb (u_solvable_with_ex u P (G ++ [x]) (pr_soft P)) in
+      match greedy_close U fuel (dep_reqs U x) (G ++ [x]) with
+      | Some G' =>
+        if soft_step_ok u P G' x then
+          match soft_expect fuel u P G' t with Some r => Some ((x, G') :: r) | None => None end
+        else if clear_reject then soft_expect fuel u P G t else None
+      | None => if clear_reject then soft_expect fuel u P G t else None
+      end
+  end.
+
+Definition o_soft_expect (u : universe) (P : problem) : option (list (N * list N)) :=
+  match greedy (table_provider u) (greedy_fuel u P) (mkProblem (pr_reqs P) (pr_cons P) []) with
+  | Some G0 => soft_expect (greedy_fuel u P) u P G0 (pr_soft P)
+  | None => None
+  end.
+
+(* the oracle only expects a soft solvable to be accepted when a consistent
+   first-choice-closed selection containing it exists *)
+Lemma soft_expect_sound fuel u P : forall softs G r x G',
+  soft_expect fuel u P G softs = Some r -> In (x, G') r ->
+  In x softs /\ soft_step_ok u P G' x = true.
+Proof.
+  induction softs as [|y t IH]; intros G r x G' H Hin; cbn [soft_expect] in H.
+  - inversion H. subst. destruct Hin.
+  - destruct (memN y G) eqn:Ey.
+    + destruct (soft_step_ok u P G y) eqn:Eok; [|discriminate].
+      destruct (soft_expect fuel u P G t) as [r'|] eqn:Er; [|discriminate]. inversion H. subst.
+      destruct Hin as [E|Hin].
+      * inversion E. subst. split; [left; reflexivity | exact Eok].
+      * destruct (IH G r' x G' Er Hin) as [H1 H2]. split; [right; exact H1 | exact H2].
+    + destruct (greedy_close (table_provider u) fuel (dep_reqs (table_provider u) y) (G ++ [y])) as [G1|].
+      * destruct (soft_step_ok u P G1 y) eqn:Eok.
+        -- destruct (soft_expect fuel u P G1 t) as [r'|] eqn:Er; [|discriminate]. inversion H. subst.
+           destruct Hin as [E|Hin].
+           ++ inversion E. subst. split; [left; reflexivity | exact Eok].
+           ++ destruct (IH G1 r' x G' Er Hin) as [H1 H2]. split; [right; exact H1 | exact H2].
+        -- destruct (negb (u_solvable_with_ex u P (G ++ [y]) (pr_soft P))); [|discriminate].
+           destruct (IH G r x G' H Hin) as [H1 H2]. split; [right; exact H1 | exact H2].
+      * destruct (negb (u_solvable_with_ex u P (G ++ [y]) (pr_soft P))); [|discriminate].
+        destruct (IH G r x G' H Hin) as [H1 H2]. split; [right; exact H1 | exact H2].
+Qed.
+
+Lemma soft_step_ok_spec u P G x :
+  soft_step_ok u P G x = true ->
+  In x G /\ valid (table_provider u) P G [] /\ supported (table_provider u) P G /\
+  (forall r, all_reqs (table_provider u) P G r ->
+     exists f, first_choice (table_provider u) r = Some f /\ In f G /\
+               forall s, In s G -> cand_of (table_provider u) r s -> s = f).
+Proof.
+  unfold soft_step_ok. intro H.
+  apply andb_true_iff in H. destruct H as [H Hf]. apply andb_true_iff in H. destruct H as [H Hs].
+  apply andb_true_iff in H. destruct H as [Hx Hv].
+  split; [apply memN_In; exact Hx|]. split; [apply validb_spec; exact Hv|].
+  split; [apply supportedb_spec; exact Hs|].
+  intros r Hr. apply all_reqs_list_spec in Hr. rewrite forallb_forall in Hf. specialize (Hf r Hr).
+  unfold first_choiceb_ok in Hf. destruct (first_choice (table_provider u) r) as [f|]; [|discriminate].
+  apply andb_true_iff in Hf. destruct Hf as [Hm Hall]. exists f. split; [reflexivity|].
+  split; [apply memN_In; exact Hm|]. intros s0 Hs0 Hc. rewrite forallb_forall in Hall.
+  specialize (Hall s0 Hs0). apply cand_ofb_spec in Hc. rewrite Hc in Hall. apply N.eqb_eq. exact Hall.
+Qed.
